@@ -78,7 +78,7 @@ EXACT_Q = [
 ]
 
 KINDS = ["random", "uniaxial", "pure_shear", "hydrostatic", "near_hydrostatic", "repeated", "zero", "plane",
-         "integer", "deviatoric", "tie_absmax", "compressive", "magnitude"]
+         "integer", "deviatoric", "tie_absmax", "near_tie_absmax", "compressive", "magnitude", "tiny"]
 
 
 def gen_row(rng, kind):
@@ -122,6 +122,18 @@ def gen_row(rng, kind):
         perm = rng.sample(range(3), 3)
         d = [lam[perm[0]], lam[perm[1]], lam[perm[2]]]
         return d + [0.0, 0.0, 0.0], sorted(lam)
+    if kind == "near_tie_absmax":   # |w_min| and |w_max| differ by a relative gap of 1e-7 .. 1e-3 (far above rounding)
+        a = abs(u()) + 0.5
+        d = 10.0 ** rng.uniform(-7, -3)
+        lam = sorted(rng.choice([[-a * (1 + d), u(0.4), a], [-a, u(0.4), a * (1 + d)]]))
+        q = np.array(rand_orth(rng)).reshape(3, 3)
+        return voigt(q @ np.diag(lam) @ q.T), lam
+    if kind == "tiny":              # every eigenvalue far below 1e-8: absolute tolerances in the code would show
+        f = 10.0 ** rng.randint(-14, -9)
+        lam = sorted([-abs(u()) - 10.0, u(5.0), abs(u(5.0))]) if rng.random() < 0.5 else sorted([u(), u(), u()])
+        lam = [f * x for x in lam]
+        q = np.array(rand_orth(rng)).reshape(3, 3)
+        return voigt(q @ np.diag(lam) @ q.T), lam
     if kind == "compressive":   # negative eigenvalue of largest magnitude
         lam = sorted([-abs(u()) - 10.0, u(5.0), abs(u(5.0))])
         q = np.array(rand_orth(rng)).reshape(3, 3)
@@ -165,11 +177,45 @@ def make_index(kind, n):
     raise ValueError(kind)
 
 
-def frame(rows, index_kind, extra=False):
-    df = pd.DataFrame({c: [r[i] for r in rows] for i, c in enumerate(COLS)}, index=make_index(index_kind, len(rows)))
-    if extra:
-        df["other"] = 1.0
-    return df
+# column layouts of the frames handed to the accessor: the six Voigt columns in any order, other columns anywhere
+CANONICAL = COLS + ["other"]
+EXTRA_VALUES = {"other": 1.0, "S1": 11.0, "S111": -7.0, "S21": 5.0, "s11": 3.0, "S12_x": 2.5, "node": "n", "T": 300.0}
+COLUMN_ORDERS = [
+    ["S11", "S22", "S33", "S12", "S23", "S13"],     # swap inside the shear block
+    ["S11", "S22", "S33", "S13", "S12", "S23"],
+    ["S11", "S22", "S33", "S23", "S13", "S12"],
+    ["S12", "S13", "S23", "S11", "S22", "S33"],     # shear first
+    ["S23", "S13", "S12", "S33", "S22", "S11"],     # reversed
+    ["S22", "S11", "S33", "S12", "S13", "S23"],     # swap inside the normal block
+    ["S33", "S22", "S11", "S12", "S13", "S23"],
+    ["S11", "S12", "S13", "S22", "S23", "S33"],     # row-major upper triangle: normal / shear mixed
+    ["S12", "S22", "S33", "S11", "S13", "S23"],     # one normal / shear mix-up
+    ["S11", "S22", "S23", "S12", "S13", "S33"],
+]
+
+
+def gen_colorder(rng):
+    r = rng.random()
+    if r < 0.15:
+        order = list(COLS)
+    elif r < 0.75:
+        order = list(rng.choice(COLUMN_ORDERS))
+    else:
+        order = rng.sample(COLS, 6)
+    extras = rng.sample(sorted(EXTRA_VALUES), rng.choice([0, 0, 1, 2, 3]))
+    for e in extras:
+        order.insert(rng.choice([0, len(order), rng.randrange(len(order) + 1)]), e)
+    return order
+
+
+def frame(rows, index_kind, colorder=None, extra=False):
+    """DataFrame of the tensors; `colorder` = column names in frame order (Voigt columns and extra columns)"""
+    if colorder is None:
+        colorder = CANONICAL if extra else COLS
+    data = {}
+    for c in colorder:
+        data[c] = [r[COLS.index(c)] for r in rows] if c in COLS else [EXTRA_VALUES[c]] * len(rows)
+    return pd.DataFrame(data, index=make_index(index_kind, len(rows)), columns=list(colorder))
 
 
 def accessor_values(df):
@@ -196,8 +242,8 @@ def accessor_values(df):
         [[float(v[i]) for v in vals] for i in range(len(df))], problems
 
 
-def call_accessor(rows, index_kind):
-    return accessor_values(frame(rows, index_kind, extra=True))
+def call_accessor(rows, index_kind, colorder=None):
+    return accessor_values(frame(rows, index_kind, colorder or CANONICAL))
 
 
 def call_lists(rows):
@@ -263,9 +309,10 @@ class C17(Prop):
         "equistress_rotation_invariant", "accessor_rowwise"]] + [
         "PylifeVerif.Bridge.mises_eq"]      # generated (translated) mises = hand model
     PARTIAL = {}
-    RULE = ("case = (1-6 stress tensors of 13 kinds incl. uniaxial, pure shear, hydrostatic, near-hydrostatic, repeated "
+    RULE = ("case = (1-6 stress tensors of 15 kinds incl. uniaxial, pure shear, hydrostatic, near-hydrostatic, repeated "
             "eigenvalues, zero, zero trace, |w_min| = |w_max|; one orthogonal Q (exact or random, proper or reflection); "
-            "one positive scale factor; index layout); every base / rotated / scaled tensor is evaluated on the scalar, "
+            "one positive scale factor; index layout; column layout of the frame = the six Voigt columns "
+            "in canonical / permuted order with 0-3 other columns anywhere); every base / rotated / scaled tensor is evaluated on the scalar, "
             "column and accessor path and in further batch layouts (alone as a column of length 1, columns of length 2 and 3, "
             "next to 1-4 all-zero rows, as a one-row frame df.iloc[[i]]) and all 9 function values are compared bit for bit "
             "with the Lean model fed with the eigenvalues `principals` returned; non-trivial = at least one non-zero tensor; distinct by case")
@@ -344,11 +391,12 @@ class C17(Prop):
             yield self._case(rng, rows, lams, kinds, q, qk)
 
     def _case(self, rng, rows, lams, kinds, q, qk, frames=None):
-        factor = rng.choice([2.0, 0.5, 3.7, 1e-3, 1e4, rng.uniform(0.1, 10.0)])
+        factor = rng.choice([2.0, 0.5, 3.7, 1e-3, 1e4, 1e-9, rng.uniform(0.1, 10.0)])
         idx = rng.choice(["range", "reversed", "offset", "string", "multi"])
         return {"rows": rows, "lam": lams, "kinds": kinds, "q": q, "q_kind": qk, "factor": factor, "index": idx,
                 "drop": rng.choice(COLS), "pad": rng.choice([1, 2, 3, 4]),
-                "frames": frames if frames is not None else rng.random() < 0.25}
+                "frames": frames if frames is not None else rng.random() < 0.25,
+                "colorder": gen_colorder(rng)}
 
     # -------------------------------------------------------------- derived tensors
     @staticmethod
@@ -372,7 +420,7 @@ class C17(Prop):
             out["scalar"] = [call_scalar(r) for r in allrows]
             cw, cv = call_column(allrows)
             out["column"] = list(zip(cw, cv))
-            aw, av, problems = call_accessor(allrows, case["index"])
+            aw, av, problems = call_accessor(allrows, case["index"], case.get("colorder"))
             out["accessor"] = list(zip(aw, av))
             out["problems"] = problems
             out["layouts"] = self._layouts(case, allrows, len(base), out)
@@ -410,14 +458,14 @@ class C17(Prop):
         # (pandas is slow: in a quarter of the random cases, for at most two rows)
         if not case.get("frames", True):
             return lay
-        df = frame(allrows, case["index"], extra=True)
+        df = frame(allrows, case["index"], case.get("colorder") or CANONICAL)
         for i in sorted({0, pad % n}):
             one = df.iloc[[i]]
             w, v, problems = accessor_values(one)
             out["problems"] = out["problems"] + [f"one-row frame df.iloc[[{i}]]: {p}" for p in problems]
             lay.append((f"accessor on the one-row frame df.iloc[[{i}]]", i, allrows[i], w[0], v[0]))
         # the padded layout through the accessor as well (first base row only)
-        w, v, problems = accessor_values(frame([allrows[0]] + [zero] * pad, case["index"], extra=True))
+        w, v, problems = accessor_values(frame([allrows[0]] + [zero] * pad, case["index"], case.get("colorder") or CANONICAL))
         out["problems"] = out["problems"] + [f"padded frame: {p}" for p in problems]
         for j in range(pad + 1):
             lay.append((f"accessor: frame with the tensor in row 0 followed by {pad} all-zero rows", 0 if j == 0 else None,
@@ -501,14 +549,21 @@ class C17(Prop):
         # (a) scalar = column = accessor, row by row, bit for bit; index / names kept
         for p in ev["problems"]:
             return (f"accessor: {p}", "accessor-glue")
+        colorder = case.get("colorder") or CANONICAL
+        ck = ("canonical" if [c for c in colorder if c in COLS] == COLS else "permuted") + \
+            ("+extra" if len(colorder) > 6 else "")
+        st.setdefault("frame_column_layout", {})
+        st["frame_column_layout"][ck] = st["frame_column_layout"].get(ck, 0) + 1
+        named = lambda r: ", ".join(f"{c}={x!r}" for c, x in zip(COLS, r))
         for i in range(len(rows)):
             (ws, vs), (wc, vc), (wa, va) = ev["scalar"][i], ev["column"][i], ev["accessor"][i]
             for k, f in enumerate(FUNCS):
                 if not (same(vs[k], vc[k]) and same(vs[k], va[k])):
-                    return (f"{f}: scalar call {vs[k]!r}, column call {vc[k]!r}, accessor {va[k]!r} on tensor {rows[i]}",
-                            "accessor-differs")
+                    return (f"{f}: plain function with scalars {vs[k]!r}, with columns {vc[k]!r}, but df.equistress.{f}() gives "
+                            f"{va[k]!r} in row {i} ({named(rows[i])}) of a frame whose columns are {colorder}", "accessor-differs")
             if not all(same(a, b) and same(a, d) for a, b, d in zip(ws, wc, wa)):
-                return (f"principals: scalar {ws}, column {wc}, accessor {wa} on tensor {rows[i]}", "accessor-differs")
+                return (f"principals: plain function with scalars {ws}, with columns {wc}, but df.equistress.principals() gives "
+                        f"{wa} in row {i} ({named(rows[i])}) of a frame whose columns are {colorder}", "accessor-differs")
 
         # (a'') row by row: the number a tensor gets must not depend on the batch it is evaluated in - alone as a
         # column of length 1, in columns of length 2 and 3, next to all-zero rows, as a one-row frame df.iloc[[i]]
@@ -639,7 +694,7 @@ class C17(Prop):
 
         # (d) the accessor validates its columns
         st["missing_column_checks"] += 1
-        df = frame(rows[:n], case["index"]).drop(columns=[case["drop"]])
+        df = frame(rows[:n], case["index"], case.get("colorder") or CANONICAL).drop(columns=[case["drop"]])
         try:
             df.equistress
             return (f"df.equistress accepted a frame without column {case['drop']}", "accessor-glue")
@@ -658,7 +713,9 @@ class C17(Prop):
                 if still_fails(c2):
                     cur = c2
                     break
-        for patch in ({"q": [float(x) for x in EXACT_Q[0]], "q_kind": "exact"}, {"factor": 2.0}, {"index": "range"}):
+        for patch in ({"q": [float(x) for x in EXACT_Q[0]], "q_kind": "exact"}, {"factor": 2.0}, {"index": "range"},
+                      {"colorder": list(CANONICAL)},
+                      {"colorder": [c for c in (cur.get("colorder") or CANONICAL) if c in COLS]}):
             c2 = dict(cur, **patch)
             if still_fails(c2):
                 cur = c2
